@@ -433,11 +433,14 @@ META = {
     'technique': 'static analysis: symbolic value analysis of Frame.add_signal per input-form/flag configuration against a '
                  'reference definition (FORMULA/AGREE on the returned frame, the data update, the rejecting paths and the '
                  'smearing loop body/trip count), closed forms of the shipped path/profile families',
-    'level': 'Decides from the source, for every combination of input forms (callable/array/scalar) and flags covered, that the '
-             'returned array is T(t) * f_profile(ff, path) * B(f) on meshgrids of the frame\'s own axes (arguments in that order), '
-             'that sub-sample averaging reshapes to (N, subsamples) and averages the sub-sample axis, that smearing adds n copies '
-             'divided by n while stepping the path by diff(path)/n, that array inputs are validated against exactly the required '
-             'length (tchans+1 for a smeared path), and the closed forms of the shipped path/profile functions. Pixel values and '
-             'float rounding are not decided.',
+    'level': 'Decides from the source, for every combination of input forms (callable/array/scalar) and flags covered, that '
+             "the returned array is T(t) * f_profile(ff, path) * B(f) on meshgrids of the frame's own axes (arguments in that "
+             'order), that sub-sample averaging reshapes to (N, subsamples) and averages the sub-sample axis, that smearing '
+             'adds n copies divided by n while stepping the path by diff(path)/n, that array inputs are validated against '
+             'exactly the required length (tchans+1 for a smeared path), and the closed forms of the shipped path/profile '
+             'functions. Pixel values and float rounding are not decided. Also decided: the scalar form of every component '
+             'accepts numpy scalars (SCALARFORM), an array bandpass is one value per column also under frequency sub-sampling,'
+             " an empty bounding range yields the empty/zero result, and the sub-sample time grids start at the frame's own "
+             'first time stamp.',
     'note': 'Real arithmetic; numpy meshgrid/reshape/mean/diff are opaque functions compared by arguments; user callables are opaque.',
 }
